@@ -85,12 +85,14 @@ _PURE_METHODS = {
 
 
 class Evaluator:
-    def __init__(self, repo, hooks=None, max_steps=200000, opaque=None):
+    def __init__(self, repo, hooks=None, max_steps=200000, opaque=None, externals=None, method_hooks=None):
         """hooks: {call text: value or callable(args)->value} consulted before a call is resolved;
         opaque(name, args) -> value or raises Undecided, for functions outside the understood subset"""
         self.repo = repo
         self.hooks = hooks or {}
         self.opaque = opaque
+        self.externals = externals or {}  # global name -> python callable standing in for a function the evaluation does not follow
+        self.method_hooks = method_hooks or {}  # (class name, method name) -> python callable(args) standing in for the method
         self.steps = 0
         self.max_steps = max_steps
         self.calls = 0
@@ -344,6 +346,8 @@ class Evaluator:
                 return env[e.id]
             if e.id in ("True", "False", "None"):
                 return {"True": True, "False": False, "None": None}[e.id]
+            if e.id in self.externals:
+                return ("pyfunc", self.externals[e.id])
             r = self.repo.resolve_name(mod.name, e.id)
             if r:
                 m2 = self.repo.modules[r[0]]
@@ -549,7 +553,7 @@ class Evaluator:
         if isinstance(f, tuple) and f and f[0] == "noop":
             return None
         if isinstance(f, tuple) and f and f[0] == "pyfunc":
-            if any(isinstance(a, (Obj, ClassRef)) for a in args):
+            if any(isinstance(a, (Obj, ClassRef)) for a in args) and f[1] not in self.externals.values():
                 raise Undecided("builtin on object")
             try:
                 return f[1](*args, **kw)
@@ -563,6 +567,8 @@ class Evaluator:
         if isinstance(f, tuple) and f and f[0] == "method":
             _, m2, fn2, bound = f
             qn = _qual(m2, fn2)
+            if tuple(qn.split(".", 1)) in self.method_hooks:
+                return self.method_hooks[tuple(qn.split(".", 1))](*args, **kw)
             c2 = qn.rsplit(".", 1)[0] if "." in qn else None
             decs = decorators(fn2)
             if "property" in decs:
